@@ -105,6 +105,26 @@ def distancesArcs (n : Nat) (arcs : List Arc) (s : Nat) : Res :=
 
 def distances (g : WGraph) (s : Nat) : Res := distancesArcs g.n (arcsOf g) s
 
+/-! ### Repeated calls on the same object
+
+`distances(&mut self)` keeps working on `self.dist`: a second call starts from the vector the first
+call left behind (it is NOT re-initialised).  `distancesFrom` is one call on an object whose `dist`
+is `d` (result, new `dist`); `repeatFrom` is `k` calls in a row. -/
+
+def distancesFrom (n : Nat) (arcs : List Arc) (d : Dist) : Option Dist × Dist :=
+  let d' := rounds arcs (n - 1) d
+  (if finalScan d' arcs then none else some d', d')
+
+def repeatFrom (n : Nat) (arcs : List Arc) : Nat → Dist → List (Option Dist)
+  | 0, _ => []
+  | k+1, d =>
+    let r := distancesFrom n arcs d
+    r.1 :: repeatFrom n arcs k r.2
+
+/-- `let mut b = BellmanFordMoore::new(&g, s); [b.distances(); k]` — `none` = the panic of `new`. -/
+def distancesRepeat (g : WGraph) (s k : Nat) : Option (List (Option Dist)) :=
+  if s < g.n then some (repeatFrom g.n (arcsOf g) k (init g.n s)) else none
+
 /-- Number of passes of the outer `for` that were executed and whether the loop was left through
 the `break` (driver tags only). -/
 def roundsUsed (arcs : List Arc) : Nat → Dist → Nat × Bool
